@@ -9,6 +9,7 @@ package fzf
 
 import (
 	"fmt"
+	"os"
 	"strconv"
 	"strings"
 	"unicode"
@@ -405,6 +406,9 @@ func genC09Plan(r *zsim.Rng) *sysPlan {
 	if r.Chance(1, 4) {
 		p.Args = append(p.Args, "--track")
 	}
+	if r.Chance(1, 4) {
+		p.Args = append(p.Args, "--query", []string{"ab", "a b", "abc def", "é日", "f", "  a"}[r.Intn(6)])
+	}
 	// streamed input: the producer writes the records in stages while the user is already at work
 	feeds := 0
 	if n >= 3 && r.Chance(1, 3) {
@@ -573,6 +577,10 @@ func runC09(c *runCtx) {
 	lay := argValue(plan.Args, "--layout")
 	m.reverse = lay == "reverse" || lay == "reverse-list"
 	st.noInput = hasArg(plan.Args, "--no-input")
+	if q := argValue(plan.Args, "--query"); q != "" {
+		m.query = []rune(q)
+		m.cx = len(m.query)
+	}
 	st.track = hasArg(plan.Args, "--track")
 	st.tail = plan.Tail
 	r.onSettle = func(r *sysRun, busy bool, final bool) { c09Settle(r, st, busy, final) }
@@ -605,6 +613,11 @@ func (st *c09State) refreshList(r *sysRun) {
 	hadList := st.listValid
 	m.list = indicesOf(freshFilter(items, string(m.query), mc))
 	st.listValid = true
+	if st.track && !hadList && len(m.query) > 0 && len(m.list) > 1 {
+		// initial query + --track: while the input was loading the cursor followed the first item of
+		// whichever partial list came first
+		st.cursorLoose = true
+	}
 	if st.track && hadList {
 		// --track: the cursor stays on the item it designated if that item is still listed
 		if had {
@@ -643,6 +656,7 @@ func c09Settle(r *sysRun, st *c09State, busy bool, final bool) {
 	s := r.state()
 	if s == nil || busy || (s.Reading && len(r.stageLines) == 0) || !r.inputAtRest() {
 		c.count("settle.busy", 1)
+		r.sim.Logf("c09 settle %d: busy", r.settleN)
 		return
 	}
 	m := st.model
@@ -753,6 +767,7 @@ func c09Settle(r *sysRun, st *c09State, busy bool, final bool) {
 	pos := fmt.Sprintf("after %d events, last action %q", st.applied, lastTag(r.plan, st.applied))
 	if !st.exact {
 		c.count("settle.model_inexact", 1)
+		r.sim.Logf("c09 settle %d: model_inexact", r.settleN)
 		return
 	}
 	if s.Query != string(m.query) {
@@ -782,15 +797,21 @@ func c09Settle(r *sysRun, st *c09State, busy bool, final bool) {
 		// the model and the producer disagree about what has been written (minimised plan), or fzf has not
 		// caught up: C06 decides the latter
 		c.count("settle.input_differs", 1)
+		r.sim.Logf("c09 settle %d: input_differs", r.settleN)
 		return
 	}
 	if firstDiff(s.Matches, m.list) >= 0 {
 		// not C09's business (C08 decides convergence); without the same list the rest cannot be compared
 		c.count("settle.list_differs", 1)
+		r.sim.Logf("c09 settle %d: list_differs", r.settleN)
+		if os.Getenv("VERIF_C09_LISTDIFF") != "" {
+			c.violate("c09.debug_list", "%s: list %v model %v query %q", pos, s.Matches, m.list, s.Query)
+		}
 		return
 	}
 	if !st.listExact {
 		c.count("settle.list_inexact", 1)
+		r.sim.Logf("c09 settle %d: list_inexact", r.settleN)
 		return
 	}
 	if firstDiff(s.Selected, m.sel) >= 0 {
@@ -800,6 +821,7 @@ func c09Settle(r *sysRun, st *c09State, busy bool, final bool) {
 	if st.cursorLoose && len(m.list) > 0 {
 		m.cy = s.Cy
 		c.count("settle.cursor_resynced", 1)
+		r.sim.Logf("c09 settle %d: cursor_resynced", r.settleN)
 	}
 	st.cursorLoose = false
 	if queryChanges >= 2 && len(m.list) > 0 {
@@ -808,6 +830,7 @@ func c09Settle(r *sysRun, st *c09State, busy bool, final bool) {
 		// the model adopts it.
 		m.cy = s.Cy
 		c.count("settle.cursor_resynced", 1)
+		r.sim.Logf("c09 settle %d: cursor_resynced", r.settleN)
 	}
 	if len(m.list) > 0 && s.Cy != m.cy {
 		c.violate("c09.cursor_y", "%s: list cursor at position %d, model at %d (%d results, cycle=%v, reverse=%v, page=%d)", pos, s.Cy, m.cy, len(m.list), m.cycle, m.reverse, m.pageSize)
